@@ -454,7 +454,7 @@ CHECKS["C18"] = {
         # Close() against exchanges that are emptying a pool of dead connections (map iteration vs deletion shows as a
         # race report or a fatal error of the runtime)
         {"engine": "P", "pkg": "internal/upstream/transport", "race": True, "tests": [
-            {"run": "TestVfC18CloseVsDeadPool", "quick": 160, "thorough": 16000, "shards_quick": 8, "shards_thorough": 16, "timeout_thorough": 3000, "shrinktime": "10s"},
+            {"run": "TestVfC18CloseVsDeadPool", "quick": 160, "thorough": 2400, "shards_quick": 8, "shards_thorough": 16, "timeout_thorough": 3000, "shrinktime": "10s"},
         ]},
         {"engine": "P", "pkg": "internal/upstream", "race": True, "tests": [
             {"run": "TestVfC18UpstreamClose", "quick": 240, "thorough": 66670, "shards_quick": 8, "shards_thorough": 16, "timeout_thorough": 3400, "shrinktime": "10s"},
